@@ -392,6 +392,7 @@ fn classexpr(depth: usize, stride: usize, viols: &mut Vec<Value>) -> Value {
             Re::Set(vec![(c(1), c(2)), (c(2), c(6))]),
             Re::Set(vec![(c(0), c(0)), (c(3), c(3)), (c(6), c(7)), (c(3), c(3))]),
             Re::Set(vec![(c(0), c(7))]),
+            Re::Set(vec![(c(0), c(6)), (c(2), c(3)), (c(5), c(5))]),
             Re::Any,
         ];
         let exprs = class_exprs(&atoms, depth);
@@ -474,6 +475,8 @@ fn class_regress(viols: &mut Vec<Value>) -> Value {
         diff(d('\u{D000}', '\u{F000}'), d('\u{E000}', '\u{F000}')),
         diff(Re::Any, Re::Any),
         diff(diff(Re::Any, d('b', 'y')), ch('a')),
+        diff(set(&[('a', 'z'), ('c', 'e')]), ch('x')),
+        diff(Re::Any, set(&[('0', '9'), ('2', '3'), ('5', '5')])),
         diff(diff(d('a', 'z'), d('c', 'e')), d('d', 'x')),
         diff(builtin("alphabetic"), d('a', 'z')),
         diff(builtin("ascii_alphanumeric"), builtin("ascii_digit")),
@@ -534,6 +537,9 @@ fn builtins_job(viols: &mut Vec<Value>) -> Value {
         exprs.push((format!("{a}|{b}"), re::alt(re::builtin(a), re::builtin(b))));
         exprs.push((format!("{a}#{b}"), re::diff(re::builtin(a), re::builtin(b))));
         exprs.push((format!("{b}#{a}"), re::diff(re::builtin(b), re::builtin(a))));
+    }
+    for (a, b, c) in [("alphanumeric", "alphabetic", "ascii_digit"), ("alphabetic", "lowercase", "uppercase"), ("ascii_alphanumeric", "ascii_digit", "ascii_uppercase"), ("XID_Continue", "XID_Start", "numeric")] {
+        exprs.push((format!("{a}#{b}#{c}"), re::diff(re::diff(re::builtin(a), re::builtin(b)), re::builtin(c))));
     }
     for n in ["alphabetic", "uppercase", "XID_Start", "ascii_hexdigit"] {
         exprs.push((format!("{n}#[a-z]"), re::diff(re::builtin(n), re::set(&[('a', 'z')]))));
